@@ -114,6 +114,10 @@ type Interp struct {
 	nclos     int
 	// custom models keyed by full function name (pkgpath.Func or pkgpath.(Type).Method)
 	models map[string]func(in *Interp, fr *frame, call *ast.CallExpr, recv *Term, args []*Term, st *State) ([]*Term, bool)
+	// opaque methods keyed by "(*Type).method" regardless of package: the call is
+	// recorded as an effect and its results are uninterpreted (used to compare a
+	// unit with its reference model without inlining its neighbours)
+	opaqueMethods map[string]bool
 	// extra packages (reference code) that may be inlined
 	extraDecls map[types.Object]*ast.FuncDecl
 	extraPkg   map[types.Object]*packages.Package
@@ -1362,6 +1366,16 @@ func (in *Interp) callTree(fr *frame, call *ast.CallExpr, st *State) *Tree {
 			vals, handled := m(in, fr, call, recv, args, st)
 			if handled {
 				return leafTree(st, flowFall, vals...)
+			}
+		}
+		if in.opaqueMethods != nil && sig.Recv() != nil {
+			short := name[strings.LastIndex(name, ".(")+1:]
+			if in.opaqueMethods[short] {
+				all := append([]*Term{recv}, args...)
+				ns := st.clone()
+				ns.effects = append(ns.effects, &Term{Op: "callfx", S: short, Args: all})
+				v := &Term{Op: "opaque", S: short, Args: all}
+				return leafTree(ns, flowFall, in.splitResults(v, sig)...)
 			}
 		}
 		// interface method: uninterpreted, assumed pure
